@@ -37,7 +37,10 @@ PD(H) == /\ Minor1(H) > 0 /\ (Dm < 2 \/ Minor2(H) > 0) /\ (Dm < 3 \/ Minor3(H) >
 Sym(H) == \A i, j \in 1..Dm : FAbs(H[i][j] - H[j][i]) <= 2
 \* minors too close to the resolution are not decided
 Resolved(H) == Minor1(H) > 64 /\ (Dm < 2 \/ FAbs(Minor2(H)) > 64) /\ (Dm < 3 \/ FAbs(Minor3(H)) > 64)
-BwClause == IF ~C.finite THEN "bandwidth-not-finite"
+\* the property's proviso (the localisation reaches at least one other grid point) cannot be evaluated from public
+\* state: when a localisation weight vector concentrates on a single grid point the covariance normalisation is 0/0
+\* and the bandwidth is not finite - such cases are not decided
+BwClause == IF ~C.finite THEN "inconclusive"
             ELSE IF \E g \in 1..NG : ~Sym(C.H[g]) THEN "bandwidth-not-symmetric"
             ELSE IF \E g \in 1..NG : Resolved(C.H[g]) /\ ~PD(C.H[g]) THEN "bandwidth-not-positive-definite"
             ELSE "ok"
@@ -45,12 +48,20 @@ Close(a, b) == FAbs(a - b) <= 8 + FMax2(FAbs(a), FAbs(b)) \div 2000
 SumClause == IF FAbs(C.score - FSumR(C.ld, Len(C.ld))) > 4 * Len(C.ld) + FAbs(C.score) \div 4000 THEN "score-is-not-the-sum-of-score_samples" ELSE "ok"
 RouteBad == {r \in 1..Len(C.routes) : \E i \in 1..Len(C.ld) : ~Close(C.routes[r].ld[i], C.ld[i])}
 First(s) == LET bad == {i \in 1..Len(s) : s[i] # "ok"} IN IF bad = {} THEN "ok" ELSE s[SetMin(bad)]
+\* symmetry laws presuppose a tie-free Voronoi assignment (a descriptor equidistant from two grid points is
+\* assigned by index order / rounding, which permutations and image shifts legitimately change)
+TieFree == /\ \A d \in 1..ND : Cardinality(Nearest(d)) = 1
+           \* a grid weight exactly at the fpoints threshold is decided by the rounding of the weight sums
+           /\ (C.fp = <<>> \/ C.gw = <<>> \/ \A g \in 1..NG : C.gw[g] * C.fp[2] # C.fp[1] * WS)
 Verdict == IF C.raised THEN <<"rejected", "valid-input-raised">>
            ELSE LET c == First(<<AssignClause, BwClause, SumClause>>) IN
-                IF c # "ok" THEN <<"rejected", c>>
+                IF c = "inconclusive" THEN <<"inconclusive", "localisation-proviso">>
+                ELSE IF c # "ok" THEN <<"rejected", c>>
+                ELSE IF ~TieFree THEN <<"ok">>
+                ELSE IF \E r \in 1..Len(C.routes) : ~C.routes[r].finite THEN <<"inconclusive", "localisation-proviso">>
                 ELSE IF RouteBad # {} THEN <<"rejected", "log-density-changes-under-" \o C.routes[SetMin(RouteBad)].kind>>
                 ELSE <<"ok">>
 Emit == PrintT(ToJson([k |-> "V", id |-> C.id, v |-> Verdict,
                        ctx |-> [periodic |-> C.cell # <<>>, kinds |-> {C.routes[r].kind : r \in RouteBad},
-                                unresolved |-> Cardinality({g \in 1..NG : ~Resolved(C.H[g])})]]))
+                                unresolved |-> Cardinality({g \in 1..NG : ~Resolved(C.H[g])}), tiefree |-> TieFree, error |-> C.errclass]]))
 =================================================================================
